@@ -37,6 +37,7 @@ pub struct QState<'a> {
     pub calls_after_break: usize,
     pub wid: usize,
     pub failed: bool,
+    pub inter: &'a mut BTreeSet<u64>,
 }
 
 fn kinds_of<W: WorldSpec>(ai: usize) -> &'static [u8] {
@@ -60,6 +61,20 @@ impl<'a> QState<'a> {
         self.k += 1;
         let act = self.plan.get(k).cloned().unwrap_or(VisitAct { step: Step::Continue, w: None, inner: Inner::Nothing, panic: false });
         let ent = v.ent;
+        {
+            // interleaving measure: (macro, site, visit bucket, step, write?, inner kind, fault?)
+            let inner_tag: u64 = match &act.inner {
+                Inner::Nothing => 0,
+                Inner::OtherCreate { .. } => 1,
+                Inner::OtherDestroy { .. } => 2,
+                Inner::Acc { acc } => 3 + ((acc.kind as u64) << 4) + ((acc.m as u64) << 8),
+                Inner::Peek { .. } => 4,
+            };
+            let key = [self.mac as u64, self.site.matches.len() as u64, k.min(12) as u64, act.step as u64, act.w.is_some() as u64, inner_tag, act.panic as u64]
+                .iter()
+                .fold(0x1a7e_u64, |h, x| mix(h, *x));
+            self.inter.insert(key);
+        }
         let prop: &'static str = if self.mac == QMacro::IterDestroy { "C07" } else { "C06" };
         let (arch, pos) = match self.m.ents.get(&ent) {
             Some(r) => match self.site.matches.iter().position(|x| *x == r.arch) {
@@ -460,7 +475,7 @@ impl<W: WorldSpec> Engine<W> {
         let gecs_drops_only = mac == QMacro::IterDestroy && !plan.iter().any(|a| matches!(a.inner, Inner::OtherDestroy { .. }));
         rt::arm(None, if gecs_drops_only { dp } else { None }, None, false);
         let (res, visits, created_other, pending, broke_at, calls_after_break, k, failed) = {
-            let Engine { ws, ms, stats, .. } = self;
+            let Engine { ws, ms, stats, interleavings, .. } = self;
             let w = ws[wid].as_mut().unwrap();
             let mut qs = QState {
                 m: &mut ms[wid],
@@ -478,6 +493,7 @@ impl<W: WorldSpec> Engine<W> {
                 calls_after_break: 0,
                 wid,
                 failed: false,
+                inter: interleavings,
             };
             let res = {
                 let mut hook = |v: Visit<'_, '_, W>| qs.on_visit::<W>(v);
